@@ -445,11 +445,13 @@ class NMEA2000Decoder():
         if nmea2000Message.PGN == ISO_CLAIM_PGN:
             # In this message the data is a 64 bit unique NAME which is stable between network restarts
             old_source = self.source_to_iso_name.get(src, None)
-            if old_source is not None and old_source.name == data_int:
+            # the NAME is the first 64 bits of the payload; an over-long claim must not give a wider NAME
+            name = data_int & 0xFFFFFFFFFFFFFFFF
+            if old_source is not None and old_source.name == name:
                 logger.debug("Using existing ISO_CLAIM_PGN for source %s", src)
                 source_iso_name = old_source
             else:
-                new_source = IsoName(nmea2000Message, data_int)
+                new_source = IsoName(nmea2000Message, name)
                 logger.info("Using new ISO_CLAIM_PGN for source %s: %s", src, new_source)
                 source_iso_name = self.source_to_iso_name[src] = new_source
             if self.iso_claim_filter:
